@@ -1,8 +1,9 @@
 """C08 — Types that reach reflection keep their original names at run time."""
 import json, os, shutil, subprocess
-import vlib, e2e
+import vlib, e2e, closure_graph
 
-THEOREMS = ["C08_replacer_priority_is_first_match", "C08_restores_name_at_position", "C08_analyse_order_refuted"]
+THEOREMS = ["C08_replacer_priority_is_first_match", "C08_restores_name_at_position", "C08_analyse_order_refuted",
+            "C08_closure_complete", "C08_closure_sound"]
 
 FILES = {
     "main.go": '''package main
@@ -74,6 +75,12 @@ func helper2(v any) string       { return helper(v) }
 func variadic(vs ...any) string  { return describe(reflect.TypeOf(vs[0])) }
 func byValueOf(v any) string     { return reflect.ValueOf(v).Type().String() }
 
+type MapKey struct{ KeyField int }
+type MapVal struct{ ValField int }
+type FuncArg struct{ ArgField int }
+type FuncRes struct{ ResField int }
+type FuncHolder struct{ Fn func(FuncArg) FuncRes }
+
 type shower interface{ show(v any) string }
 type showImpl struct{}
 
@@ -88,6 +95,10 @@ func main() {
 	fmt.Println("generic-type-argument", helper(Generic[GenArg]{}))
 	fmt.Println("alias-variadic-valueof", helper(Aliased{}), variadic(Variadic{}, 1), byValueOf(&PtrTarget{}))
 	fmt.Println("anonymous", helper(struct{ Anon1, Anon2 int }{}))
+	mt := reflect.TypeOf(map[MapKey]MapVal{})
+	fmt.Println("map-key", mt.String(), describe(mt.Key()), describe(mt.Elem()))
+	ft := reflect.TypeOf(FuncHolder{}).Field(0).Type
+	fmt.Println("func-signature", ft.String(), describe(ft.In(0)), describe(ft.Out(0)))
 	doc := JSONDoc{Name: "n", Items: []JSONItem{{1, "a"}, {2, "b"}}, Meta: map[string]string{"k": "v"}}
 	b, _ := json.Marshal(doc)
 	fmt.Println("json-marshal", string(b))
@@ -228,6 +239,7 @@ def run(res, tier, seed, replay):
     except vlib.BuildError as e:
         res.violation("garble-build", "garble no longer builds: %s" % str(e)[-800:], {"error": str(e)}, found_input=False)
         return
+    closure_cases = closure_graph.run(res, garble, tier, seed)
     proj = e2e.Project("c08", FILES, module="example.com/refl")
     caches = e2e.Caches("c08")
     pb, gb = os.path.join(proj.dir, "plain.bin"), os.path.join(proj.dir, "garbled.bin")
@@ -270,7 +282,7 @@ def run(res, tier, seed, replay):
         # force main to be recompiled next time
         p10.write("main.go", F10["main.go"] + "\n// rebuild %d\n" % k)
     caches.remove()
-    res.cov["evaluations"] += lines + reps
+    res.cov["evaluations"] += lines + reps + closure_cases
     res.cov["reflection_output_lines"] = lines
     res.cov["distinct_nontrivial"] = overlapping + lines
     res.cov["rule"] = ("(a) generated replacement tables (prefix-sharing, overlapping and repeated keys, all byte values, empty values) x inputs made of keys and noise: "
